@@ -502,6 +502,11 @@ def run(res, ctx):
         # ---- P3: nothing to report: exit 0 and an empty report under every threshold and format
         p3 = Program({"a.py": "x = 1\nprint(x)\n"}, None, False, "clean")
         progs.append(p3)
+        # ---- P4: several findings of ONE rule on ONE line / in one multi-line statement (same id, file and start line; they differ in column, severity or
+        #      nothing at all): each of them is listed (seeded change C03-m7: the SARIF writer kept the first result per (rule, file, start line))
+        p4 = Program({"a.py": PRELUDE + "import hashlib\nd = hashlib.md5(a).hexdigest() + hashlib.sha1(b).hexdigest()\nsubprocess.call(cmd, shell=True); subprocess.call('ls', shell=True)\n"
+                              "pair = (pickle.loads(x),\n        pickle.loads(y), pickle.loads(x))\nassert a; assert a\n"}, None, False, "same-rule-same-line")
+        progs.append(p4)
         nrand = 40 if thorough else 14
         rprogs = [gen_program(rng, i) for i in range(nrand)]
         progs += rprogs
@@ -529,6 +534,7 @@ def run(res, ctx):
             product(p1, same, formats, [False, True], [""], "injected")
             product(p2, same, ["json", "txt", "custom"], [False, True], [""], "injected")
         product(p3, same, formats, [False], ["", "q"] if thorough else [""], "natural")
+        product(p4, same[:1], formats, [False, True], VERB if thorough else ["", "q"], "natural")
         # seeded samples: mixed spellings / remaining programs
         nsamp = 150 if thorough else 60
         for p in [p0, p1] + rprogs:
